@@ -151,3 +151,27 @@ Section Embeds.
       apply take_app_exact. symmetry. exact Ln.
   Qed.
 End Embeds.
+
+(* The index statement behind freshness, with no premise about the source: draw a of operation p and draw c
+   of a later operation q sit at strictly increasing global indices of the source. *)
+Theorem distinct_ops_distinct_indices {A} R i (ops : list (list nat * (list bytes -> result A))) p q sp bp sq bq dp a c :
+  p < q -> nth_error ops p = Some (sp, bp) -> nth_error ops q = Some (sq, bq) ->
+  draw_all R (start_of R i ops p) sp = Some dp -> a < length sp ->
+  start_of R i ops p + a < start_of R i ops q + c.
+Proof.
+  intros Hlt Hp Hq Dp Ha.
+  pose proof (later_op_starts_after R i ops p q sp bp Hlt Hp) as Hstart.
+  destruct (run_op_ok R (start_of R i ops p) sp bp dp Dp) as [Erun _].
+  rewrite Erun in Hstart. cbn [snd] in Hstart. lia.
+Qed.
+
+(* [fresh] is satisfiable: a counter source (block i = i+1 bytes 01) never repeats a block.  (A source of
+   fixed-width blocks cannot be fresh on ALL of nat; [fresh] is the idealisation "no repeat ever", and
+   [distinct_ops_distinct_indices] is the part that needs no idealisation.) *)
+Definition counter_rng : rng := fun i _ => Some (repeat x01 (S i)).
+Lemma counter_rng_fresh : fresh counter_rng.
+Proof.
+  unfold fresh. intros i j n m x y Hij Hx Hy _ E. unfold counter_rng in *.
+  assert (Ex : x = repeat x01 (S i)) by congruence. assert (Ey : y = repeat x01 (S j)) by congruence.
+  rewrite Ex, Ey in E. apply (f_equal (@List.length _)) in E. rewrite !repeat_length in E. lia.
+Qed.
